@@ -524,6 +524,12 @@ def check_instant(env, t, tp, sp, narrow, out):
         v, b = val(env, 'N(xd)', {'xd': t})
         if not near_num(v, s):
             bad('N(xd) = %r but DATEVALUE(xd) = %r with xd = %s: two serials for one date-time' % (v, s, t.isoformat()), s, v, b)
+    if tp is not None and isnum(sp) and (t.second % 10 == 0 or t.microsecond) and post and tp >= MAR1_DT:
+        # ... and DAYS sees the whole difference of the two serials, fractions of a second included (from 1 Mar 1900 on)
+        v, b = val(env, 'DAYS(xd,xp)', {'xd': t, 'xp': tp})
+        if not near_num(v, s - sp, HALF_MS_D / 2):
+            bad('DAYS(xd,xp) = %r but DATEVALUE(xd)-DATEVALUE(xp) = %r with xd = %s, xp = %s' % (v, s - sp, t.isoformat(), tp.isoformat()),
+                s - sp, v, b)
     v, b = val(env, 'xd+0', {'xd': t})
     if not near_dt(v, t):
         bad('xd+0 with xd = %s does not return the same date-time (0.5 ms)' % t.isoformat(), enc(t), v, b)
